@@ -10,6 +10,8 @@ def run(req):
         return _recon(a)
     if fn == "mri.espirit":
         return _espirit(a)
+    if fn == "wavelet.check":
+        return _wavelet(a)
     return dict(reproduced=False, detail="no replay handler for %s" % fn)
 
 
@@ -255,3 +257,41 @@ def _espirit(a):
             if float(err.max()) > float(a.get("map_tol", 0.05)):
                 bad.append("interior magnitudes differ from the true normalised maps by %.3g" % float(err.max()))
     return dict(reproduced=bool(bad), detail="; ".join(bad) or "unit-norm or zero, phase-referenced, eigenvalues in [0,1]")
+
+
+def _wavelet(a):
+    import warnings
+    from sigpy import wavelet
+    import sigpy as sp
+    warnings.simplefilter("ignore")
+    rs = np.random.RandomState(int(a.get("seed", 0)))
+    shape = list(a["shape"])
+    w, level = a.get("wave", "db4"), a.get("level")
+    axes = a.get("axes")
+    axes = None if axes is None else tuple(axes)
+    cplx = a.get("complex", True)
+    x = rs.standard_normal(shape) + (1j * rs.standard_normal(shape) if cplx else 0)
+    bad = []
+    osh, sl = wavelet.get_wavelet_shape(shape, w, axes, level)
+    y = wavelet.fwt(x, w, axes, level)
+    if tuple(y.shape) != tuple(osh):
+        bad.append("fwt output shape %s != advertised %s" % (y.shape, tuple(osh)))
+    xr = wavelet.iwt(y, shape, sl, w, axes, level)
+    nx = max(np.linalg.norm(x), 1e-300)
+    if xr.shape != x.shape or np.linalg.norm(xr - x) > 1e-6 * nx:
+        bad.append("iwt(fwt(x)) != x (relative error %.3g)" % (np.linalg.norm(xr - x) / nx if xr.shape == x.shape else float("nan")))
+    if abs(np.linalg.norm(y) - np.linalg.norm(x)) > 1e-6 * nx:
+        bad.append("||fwt(x)|| / ||x|| = %.8g" % (np.linalg.norm(y) / nx))
+    u = rs.standard_normal(y.shape) + 1j * rs.standard_normal(y.shape)
+    xa = wavelet.iwt(u, shape, sl, w, axes, level)
+    d = abs(np.vdot(y, u) - np.vdot(x, xa)) / max(abs(np.vdot(y, u)), 1e-300)
+    if d > 1e-6:
+        bad.append("<fwt x, u> != <x, iwt u> (relative %.3g)" % d)
+    W = sp.linop.Wavelet(shape, axes=axes, wave_name=w, level=level)
+    if list(W.oshape) != list(y.shape):
+        bad.append("Wavelet.oshape %s != fwt shape %s" % (W.oshape, y.shape))
+    else:
+        z = W.H(W(x))
+        if np.linalg.norm(z - x) > 1e-6 * nx:
+            bad.append("W.H W x != x")
+    return dict(reproduced=bool(bad), detail="; ".join(bad) or "perfect reconstruction, isometry, adjoint, advertised shape")
